@@ -134,6 +134,63 @@ Section PatchOk.
   Theorem patch_ok_separated : forall (L R : list T) cs, patch_ok L R cs -> separated 0 cs.
   Proof. intros L R cs H. apply (chunks_from_separated _ _ _ _ _ H). Qed.
 
+  (* ---- what patch_ok gives back in the vocabulary of C13, for any chunk list *)
+  Lemma chunks_from_chunk_ok : forall (L R : list T) lpos rpos l r cs,
+      chunks_from lpos rpos l r cs ->
+      forall lpre rpre, L = lpre ++ l -> R = rpre ++ r -> lpos = 1 + len lpre -> rpos = 1 + len rpre ->
+      Forall (chunk_ok L R) cs.
+  Proof.
+    intros L R lpos rpos l r cs H. induction H as [|lpos rpos g c cs l r H1 H2 H3 H4 H5 IH];
+      intros lpre rpre HL HR Hl Hr; [constructor|].
+    rewrite (consumed_eq T) in *. rewrite (produced_eq T) in *. unfold llen in *. fold (len g) in *.
+    fold (len (edits_consume (edits c))) in *. fold (len (edits_produce (edits c))) in *.
+    pose proof (len_nonneg _ lpre). pose proof (len_nonneg _ rpre). pose proof (len_nonneg _ g).
+    pose proof (len_nonneg _ l). pose proof (len_nonneg _ r).
+    pose proof (len_nonneg _ (edits_consume (edits c))). pose proof (len_nonneg _ (edits_produce (edits c))).
+    constructor.
+    - assert (HL' : L = (lpre ++ g) ++ edits_consume (edits c) ++ l) by (rewrite HL; lapp).
+      assert (HR' : R = (rpre ++ g) ++ edits_produce (edits c) ++ r) by (rewrite HR; lapp).
+      assert (len L = len lpre + len g + len (edits_consume (edits c)) + len l) by (rewrite HL'; lens; lia).
+      assert (len R = len rpre + len g + len (edits_produce (edits c)) + len r) by (rewrite HR'; lens; lia).
+      unfold chunk_ok. repeat split; try lia.
+      + rewrite HL'. symmetry. apply slice1_app; lens; lia.
+      + rewrite HR'. symmetry. apply slice1_app; lens; lia.
+    - apply (IH (lpre ++ g ++ edits_consume (edits c)) (rpre ++ g ++ edits_produce (edits c))).
+      + rewrite HL. lapp.
+      + rewrite HR. lapp.
+      + lens. lia.
+      + lens. lia.
+  Qed.
+
+  Lemma chunks_from_apply : forall (L : list T) lpos rpos l r cs,
+      chunks_from lpos rpos l r cs ->
+      forall lpre acc, L = lpre ++ l -> lpos = 1 + len lpre ->
+      apply_from T L cs acc lpos = acc ++ r.
+  Proof.
+    intros L lpos rpos l r cs H. induction H as [|lpos rpos g c cs l r H1 H2 H3 H4 H5 IH]; intros lpre acc HL Hl.
+    - rewrite apply_from_nil. f_equal.
+      replace L with (lpre ++ g ++ []) by (rewrite HL; lapp).
+      apply slice1_app; [lia|]. lens. lia.
+    - rewrite (consumed_eq T) in *. rewrite (produced_eq T) in *. unfold llen in *. fold (len g) in *.
+      fold (len (edits_consume (edits c))) in *.
+      rewrite apply_from_cons.
+      replace (slice1 L lpos (LStart c)) with g.
+      2:{ rewrite HL. symmetry. apply slice1_app; lia. }
+      rewrite (IH (lpre ++ g ++ edits_consume (edits c))).
+      + lapp.
+      + rewrite HL. lapp.
+      + lens. lia.
+  Qed.
+
+  Theorem patch_ok_chunk_ok : forall (L R : list T) cs, patch_ok L R cs -> Forall (chunk_ok L R) cs.
+  Proof. intros L R cs H. apply (chunks_from_chunk_ok L R _ _ _ _ _ H [] []); reflexivity. Qed.
+
+  Theorem patch_ok_apply : forall (L R : list T) cs, patch_ok L R cs -> apply_chunks L cs = R.
+  Proof.
+    intros L R cs H. change (apply_chunks L cs) with (apply_from T L cs [] 1).
+    rewrite (chunks_from_apply L _ _ _ _ _ H [] []); reflexivity.
+  Qed.
+
   (* ---- every chunk contains an edit that is not context *)
   Definition has_change (c : chunk) : Prop := existsb (@non_emit T) (edits c) = true.
 
